@@ -69,6 +69,12 @@ def run_adx(ctx, P):
         pdm.append(up if bool((up > down) & (up > 0)) else 0)
         ndm.append(down if bool((down > up) & (down > 0)) else 0)
     a_lib, sp_lib, sn_lib = helper(f"{nm}_atr"), helper(f"{nm}_pos"), helper(f"{nm}_neg")
+    if any(g["DM_Plus"] is not None for g in got) and (all(v is None for v in a_lib) or all(v is None for v in sp_lib) or all(v is None for v in sn_lib)
+                                                       or all(ind.read_candle(cd, f"{nm}_data.dx") is None for cd in cs)):
+        # the helper series are not where this decomposition expects them (renamed / restructured): compare the
+        # readings with the definition directly instead (slow; may run out of budget, which is inconclusive, not an alarm)
+        ctx.note("ADX helper series not found under their usual names: direct comparison")
+        return compare_series(ctx, name, got, expected(ctx, name, kw, cs))
     compare_series(ctx, "ADX.helper.ATR", a_lib, R.atr(ctx, h, l, c, p))
     compare_series(ctx, "ADX.helper.RMA(+DM)", sp_lib, R.rma(pdm, p))
     compare_series(ctx, "ADX.helper.RMA(-DM)", sn_lib, R.rma(ndm, p))
